@@ -10,9 +10,13 @@ class Num:
     def __init__(self, ctx, prefix="d"):
         self.ctx, self.k, self.prefix = ctx, 0, prefix
 
+    nonzero = False
+
     def __call__(self, lo=-V, hi=V):
         v = self.ctx.real("%s%d" % (self.prefix, self.k), lo, hi)
         self.k += 1
+        if self.nonzero and lo < 0 < hi:
+            self.ctx.assume(self.ctx.xne(v, 0))
         return v
 
     def pos(self):
@@ -128,9 +132,10 @@ def viewport_matrix(ctx, ex, ey, ew, eh, vb, par):
 class Doc:
     """builds text + expectation for one skeleton"""
 
-    def __init__(self, ctx, spec, ppi, caller_w=None, caller_h=None, caller_tr=None):
+    def __init__(self, ctx, spec, ppi, caller_w=None, caller_h=None, caller_tr=None, nonzero=False):
         self.ctx = ctx
         self.num = Num(ctx)
+        self.num.nonzero = nonzero
         self.ppi = ppi
         self.defs = {}       # id -> (node spec, recorded numbers closure)
         self.expected = []   # rendered shapes in document order
